@@ -269,6 +269,26 @@ func C05(p *core.Program, r *core.Report) {
 
 	// ---- S4
 	checkLiteralTextRoundTrip(p, r, "S4")
+	// ---- S5: the distilled HTML is read back (Result.Node) by a parser with scripting enabled,
+	// the default of x/net/html: only then the content of a <noscript> that was copied with a
+	// table, caption or embed stays the one text node it was when the attributes were stripped.
+	// With scripting disabled it is parsed into elements nothing has looked at.
+	{
+		optFn := p.Func("golang.org/x/net/html.ParseOptionEnableScripting")
+		var bad []string
+		n := 0
+		for _, f := range p.ModFunctions(false) {
+			for _, call := range core.Calls(f, func(ci ssa.CallInstruction) bool {
+				return core.IsCallTo(ci, "golang.org/x/net/html.ParseOptionEnableScripting")
+			}) {
+				n++
+				if on, isC := core.ConstBool(call.Common().Args[0]); !isC || !on {
+					bad = append(bad, p.Pos(call.Pos())+" in "+core.ShortKey(f))
+				}
+			}
+		}
+		r.Add("S5", "no parser of the module runs with scripting disabled (noscript content stays text when the output is read back)", "", optFn != nil && len(bad) == 0, fmt.Sprintf("option resolved: %v; %d uses of ParseOptionEnableScripting; not the constant true: %v", optFn != nil, n, bad))
+	}
 }
 
 func shortVal(s string) string {
